@@ -407,6 +407,24 @@ pub fn gen_range_text(rng: &mut Rng) -> String {
         10 => 4,
         _ => 1 + rng.usize_below(12),
     };
+    // now and then a very long range: printed forms of several KiB cross every fixed-size
+    // buffer a serializer, formatter or reader adapter might use
+    if rng.below(300) == 0 {
+        let n = 20 + rng.usize_below(400);
+        let mut s = String::new();
+        for i in 0..n {
+            if i > 0 {
+                s.push_str("||");
+            }
+            match rng.below(4) {
+                0 => s.push_str(&format!("{}", i)),
+                1 => s.push_str(&format!("^{}.{}", i, rng.below(5))),
+                2 => s.push_str(&format!("~{}.{}.{}", i, rng.below(3), rng.below(9))),
+                _ => s.push_str(&format!("{}.{}.{}-rc.{}", i, rng.below(3), rng.below(9), rng.below(4))),
+            }
+        }
+        return s;
+    }
     if rng.below(16) == 0 {
         s.push(' ');
     }
